@@ -1,0 +1,214 @@
+//go:build verif
+
+/*
+ * Atree - Scalable Arrays and Ordered Maps
+ *
+ * Copyright Flow Foundation
+ *
+ * Licensed under the Apache License, Version 2.0 (the "License");
+ * you may not use this file except in compliance with the License.
+ * You may obtain a copy of the License at
+ *
+ *   http://www.apache.org/licenses/LICENSE-2.0
+ *
+ * Unless required by applicable law or agreed to in writing, software
+ * distributed under the License is distributed on an "AS IS" BASIS,
+ * WITHOUT WARRANTIES OR CONDITIONS OF ANY KIND, either express or implied.
+ * See the License for the specific language governing permissions and
+ * limitations under the License.
+ */
+
+package atree
+
+// Read-only views and setters used by the external verification harness.
+// Nothing in this file is compiled without the "verif" build tag.
+
+type VerifThresholdValues struct {
+	Target            uint32
+	Min               uint32
+	Max               uint32
+	MaxInlineArrayElt uint32
+	MaxInlineMapElt   uint32
+	MaxInlineMapKey   uint32
+}
+
+func VerifSetThreshold(threshold uint32) VerifThresholdValues {
+	setThreshold(threshold)
+	return VerifThresholds()
+}
+
+func VerifThresholds() VerifThresholdValues {
+	return VerifThresholdValues{
+		Target:            targetThreshold,
+		Min:               minThreshold,
+		Max:               maxThreshold,
+		MaxInlineArrayElt: maxInlineArrayElementSize,
+		MaxInlineMapElt:   maxInlineMapElementSize,
+		MaxInlineMapKey:   maxInlineMapKeySize,
+	}
+}
+
+func VerifMaxInlineMapValueSize(keySize uint32) uint32 {
+	return maxInlineMapValueSize(keySize)
+}
+
+func VerifSetMaxCollisionLimitPerDigest(limit uint32) uint32 {
+	old := maxCollisionLimitPerDigest
+	maxCollisionLimitPerDigest = limit
+	return old
+}
+
+func VerifDeltas(s *PersistentSlabStorage) map[SlabID]Slab { return s.deltas }
+
+func VerifCache(s *PersistentSlabStorage) map[SlabID]Slab { return s.cache }
+
+func VerifArrayRoot(a *Array) ArraySlab { return a.root }
+
+func VerifMapRoot(m *OrderedMap) MapSlab { return m.root }
+
+func VerifArrayHasParentUpdater(a *Array) bool { return a.parentUpdater != nil }
+
+func VerifMapHasParentUpdater(m *OrderedMap) bool { return m.parentUpdater != nil }
+
+func VerifArrayMutableElementIndex(a *Array) map[ValueID]uint64 { return a.mutableElementIndex }
+
+type VerifChildHeader struct {
+	ID       SlabID
+	Size     uint32
+	Count    uint32
+	CountSum uint32
+	FirstKey Digest
+}
+
+type VerifElement struct {
+	Kind    string // "single", "inline_group", "external_group"
+	Size    uint32
+	Key     Storable
+	Value   Storable
+	Group   *VerifElements
+	GroupID SlabID
+}
+
+type VerifElements struct {
+	HKey  bool
+	Level uint
+	Size  uint32
+	HKeys []Digest
+	Elems []VerifElement
+}
+
+type VerifSlabInfo struct {
+	Kind           string // "array_data", "array_meta", "map_data", "map_meta", "storable", "other"
+	ID             SlabID
+	Next           SlabID
+	Size           uint32
+	Count          uint32
+	FirstKey       Digest
+	Inlined        bool
+	AnySize        bool
+	CollisionGroup bool
+	HasExtraData   bool
+	TypeInfo       TypeInfo
+	MapCount       uint64
+	Seed           uint64
+	Children       []VerifChildHeader
+	Elements       []Storable
+	MapElems       *VerifElements
+	Storable       Storable
+}
+
+func verifDescribeElements(elems elements) *VerifElements {
+	switch e := elems.(type) {
+	case *hkeyElements:
+		r := &VerifElements{HKey: true, Level: e.level, Size: e.size, HKeys: append([]Digest(nil), e.hkeys...)}
+		for _, el := range e.elems {
+			r.Elems = append(r.Elems, verifDescribeElement(el))
+		}
+		return r
+	case *singleElements:
+		r := &VerifElements{HKey: false, Level: e.level, Size: e.size}
+		for _, el := range e.elems {
+			r.Elems = append(r.Elems, verifDescribeElement(el))
+		}
+		return r
+	}
+	return nil
+}
+
+func verifDescribeElement(el element) VerifElement {
+	switch e := el.(type) {
+	case *singleElement:
+		return VerifElement{Kind: "single", Size: e.size, Key: e.key, Value: e.value}
+	case *inlineCollisionGroup:
+		return VerifElement{Kind: "inline_group", Size: e.Size(), Group: verifDescribeElements(e.elements)}
+	case *externalCollisionGroup:
+		return VerifElement{Kind: "external_group", Size: e.size, GroupID: e.slabID}
+	}
+	return VerifElement{Kind: "unknown"}
+}
+
+// VerifDescribeSlab returns the in-memory fields of a slab without loading anything.
+func VerifDescribeSlab(slab Slab) VerifSlabInfo {
+	switch s := slab.(type) {
+	case *ArrayDataSlab:
+		info := VerifSlabInfo{
+			Kind: "array_data", ID: s.header.slabID, Next: s.next,
+			Size: s.header.size, Count: s.header.count, Inlined: s.inlined,
+			HasExtraData: s.extraData != nil,
+			Elements:     append([]Storable(nil), s.elements...),
+		}
+		if s.extraData != nil {
+			info.TypeInfo = s.extraData.TypeInfo
+		}
+		return info
+	case *ArrayMetaDataSlab:
+		info := VerifSlabInfo{
+			Kind: "array_meta", ID: s.header.slabID,
+			Size: s.header.size, Count: s.header.count,
+			HasExtraData: s.extraData != nil,
+		}
+		if s.extraData != nil {
+			info.TypeInfo = s.extraData.TypeInfo
+		}
+		for i, h := range s.childrenHeaders {
+			c := VerifChildHeader{ID: h.slabID, Size: h.size, Count: h.count}
+			if i < len(s.childrenCountSum) {
+				c.CountSum = s.childrenCountSum[i]
+			}
+			info.Children = append(info.Children, c)
+		}
+		return info
+	case *MapDataSlab:
+		info := VerifSlabInfo{
+			Kind: "map_data", ID: s.header.slabID, Next: s.next,
+			Size: s.header.size, FirstKey: s.header.firstKey,
+			Inlined: s.inlined, AnySize: s.anySize, CollisionGroup: s.collisionGroup,
+			HasExtraData: s.extraData != nil,
+			MapElems:     verifDescribeElements(s.elements),
+		}
+		if s.extraData != nil {
+			info.TypeInfo = s.extraData.TypeInfo
+			info.MapCount = s.extraData.Count
+			info.Seed = s.extraData.Seed
+		}
+		return info
+	case *MapMetaDataSlab:
+		info := VerifSlabInfo{
+			Kind: "map_meta", ID: s.header.slabID,
+			Size: s.header.size, FirstKey: s.header.firstKey,
+			HasExtraData: s.extraData != nil,
+		}
+		if s.extraData != nil {
+			info.TypeInfo = s.extraData.TypeInfo
+			info.MapCount = s.extraData.Count
+			info.Seed = s.extraData.Seed
+		}
+		for _, h := range s.childrenHeaders {
+			info.Children = append(info.Children, VerifChildHeader{ID: h.slabID, Size: h.size, FirstKey: h.firstKey})
+		}
+		return info
+	case *StorableSlab:
+		return VerifSlabInfo{Kind: "storable", ID: s.slabID, Size: s.ByteSize(), Storable: s.storable}
+	}
+	return VerifSlabInfo{Kind: "other"}
+}
